@@ -730,8 +730,8 @@ func c14Batch(c *fw.Ctx) error {
 	id := 0
 	for _, t := range texts {
 		for _, attr := range []string{"", "v", "<&\"'"} {
-			for _, rep := range []int{1, 2} {
-				// ground truth tree: <r a=attr><c>t</c>(<c>t2</c>)<d/></r>
+			for _, rep := range []int{1, 2, 3} {
+				// ground truth tree: <r a=attr><c>t</c>(<c>t2</c>)<d/></r>; rep 3 (decode only): the repeated element comes back after a different sibling
 				doc := val.MapV()
 				r := val.MapV()
 				if attr != "" {
@@ -750,6 +750,9 @@ func c14Batch(c *fw.Ctx) error {
 				doc.Keys = append(doc.Keys, val.StrV("r"))
 				doc.Vals = append(doc.Vals, r)
 				for _, indent := range []int{2, 0} {
+					if rep == 3 {
+						break
+					}
 					p := yqlib.NewDefaultXmlPreferences()
 					p.Indent = indent
 					out, eerr, pan := impl.Print([]*yqlib.CandidateNode{vNode(doc)}, yqlib.NewXMLEncoder(p))
